@@ -23,6 +23,10 @@ EXTENDS Contracts
 CONSTANT Deviations   \* set of named deviations of the model from the code, used to show that
                       \* the invariants are not vacuous (the defects repaired in rxsci):
                       \*   "tee-reset-last-only", "roll-close-ring-order", "scan-no-reset"
+                      \* and typical slips, one per operator family:
+                      \*   "group-index-per-parent", "take-off-by-one", "first-no-flag",
+                      \*   "lag-off-by-one", "split-no-store", "time-split-inactive-gt",
+                      \*   "tee-create-every-branch", "scan-error-loses-state", "batch-late"
 
 NotSet == <<"notset">>
 NoDefault == <<"nodefault">>
@@ -62,8 +66,9 @@ Apply2X(f, a, x) ==
       [] f.n = "maxkm"    -> LET y == Apply(f.g, x) IN IF IsNone(a) \/ V(y) > V(a) THEN y ELSE a
       [] f.n = "meanAcc"  -> TupV(<<IntV(V(V(a)[1]) + V(Apply(f.g, x))), IntV(V(V(a)[2]) + 1)>>)
       [] f.n = "batchAcc" ->
-             LET b == IF V(a)[2] = BoolV(TRUE) THEN <<x>> ELSE Append(V(V(a)[1]), x)
-             IN TupV(<<LstV(b), BoolV(Len(b) = f.c)>>)
+             LET fresh == V(a)[2] = BoolV(TRUE)
+                 b == IF fresh THEN <<x>> ELSE Append(V(V(a)[1]), x)
+             IN TupV(<<LstV(b), BoolV(Len(b) = f.c /\ ~(fresh /\ "batch-late" \in Deviations))>>)
       [] f.n = "ducAcc"   ->
              LET key == Apply(f.g, x) IN
              IF V(a)[4] = BoolV(FALSE) \/ key # V(a)[3]
@@ -147,7 +152,9 @@ PrimStep(op, s, e) ==
                   LET cur == Get(s, idx, "obj")
                       v0 == IF cur = NotSet THEN SeedOf(op) ELSE cur
                       acc == Apply2X(op.f, v0, e.v)
-                  IN IF IsErr(acc) THEN <<s, <<ErrEv(e.k, acc)>>>>
+                  IN IF IsErr(acc)
+                     THEN <<IF "scan-error-loses-state" \in Deviations THEN AddKey(s, idx, NoDefault, "obj")
+                            ELSE s, <<ErrEv(e.k, acc)>>>>
                      ELSE <<SetV(s, idx, acc), IF op.reduce THEN <<>> ELSE <<NextEv(e.k, acc)>>>>
              [] e.t = "c" -> <<IF "scan-no-reset" \in Deviations /\ idx \in DOMAIN s THEN s
                                 ELSE AddKey(s, idx, NoDefault, "obj"), <<e>>>>
@@ -163,13 +170,16 @@ PrimStep(op, s, e) ==
              [] OTHER -> <<DelKey(s, idx, "obj"), <<e>>>>
       [] op.op = "first" ->
            CASE e.t = "n" -> IF Get(s, idx, "bool") = BoolV(FALSE)
-                             THEN <<SetV(s, idx, BoolV(TRUE)), <<e>>>> ELSE <<s, <<>>>>
+                             THEN <<IF "first-no-flag" \in Deviations THEN s ELSE SetV(s, idx, BoolV(TRUE)),
+                                    <<e>>>>
+                             ELSE <<s, <<>>>>
              [] e.t = "c" -> <<AddKey(s, idx, BoolV(FALSE), "bool"), <<e>>>>
              [] e.t = "d" -> <<DelKey(s, idx, "bool"), <<e>>>>
              [] OTHER -> <<s, <<e>>>>
       [] op.op = "take" ->
            CASE e.t = "n" -> LET c == Get(s, idx, "int") IN
-                             IF V(c) > 0 THEN <<SetV(s, idx, IntV(V(c) - 1)), <<e>>>> ELSE <<s, <<>>>>
+                             IF V(c) > (IF "take-off-by-one" \in Deviations THEN -1 ELSE 0)
+                             THEN <<SetV(s, idx, IntV(V(c) - 1)), <<e>>>> ELSE <<s, <<>>>>
              [] e.t = "c" -> <<AddKey(s, idx, IntV(op.n), "int"), <<e>>>>
              [] e.t = "d" -> <<DelKey(s, idx, "int"), <<e>>>>
              [] OTHER -> <<s, <<e>>>>
@@ -196,7 +206,8 @@ PrimStep(op, s, e) ==
                   [] OTHER -> <<DelKey(s, idx, "obj"), <<e>>>>
            ELSE CASE e.t = "n" -> LET q == Append(V(Get(s, idx, "obj")), e.v)
                                       out == NextEv(e.k, TupV(<<q[1], e.v>>))
-                                      q2 == IF Len(q) > op.n THEN Tail(q) ELSE q IN
+                                      q2 == IF Len(q) > op.n - (IF "lag-off-by-one" \in Deviations THEN 1 ELSE 0)
+                                            THEN Tail(q) ELSE q IN
                                   <<SetV(s, idx, LstV(q2)), <<out>>>>
                   [] e.t = "c" -> <<SetV(AddKey(s, idx, NoDefault, "obj"), idx, LstV(<<>>)), <<e>>>>
                   [] OTHER -> <<DelKey(s, idx, "obj"), <<e>>>>
@@ -317,7 +328,8 @@ SplitStep(op, st, e) ==
                first == cur = NotSet
                cp == IF first THEN np ELSE cur
                changed == np # cp
-           IN <<[st EXCEPT !.s = IF first \/ changed THEN SetV(st.s, idx, np) ELSE st.s],
+           IN <<[st EXCEPT !.s = IF first \/ (changed /\ "split-no-store" \notin Deviations)
+                                  THEN SetV(st.s, idx, np) ELSE st.s],
                 (IF first THEN <<In(MEv("c", ck, None))>> ELSE <<>>)
                 \o (IF changed THEN <<In(MEv("d", ck, None)), In(MEv("c", ck, None))>> ELSE <<>>)
                 \o <<In(NextEv(ck, e.v))>>>>
@@ -337,7 +349,8 @@ TimeSplitStep(op, st, e) ==
                last == IF first THEN t ELSE V(Get(st.last, idx, "obj"))
                a0 == IF first THEN <<In(MEv("c", ck, None))>> ELSE <<>>
                expired == \/ op.active >= 0 /\ t >= start + op.active
-                          \/ op.inactive >= 0 /\ t >= last + op.inactive
+                          \/ op.inactive >= 0 /\ (IF "time-split-inactive-gt" \in Deviations
+                                                  THEN t > last + op.inactive ELSE t >= last + op.inactive)
                closing == ~expired /\ op.closing.n # "none" /\ Test(op.closing, e.v) = BoolV(TRUE)
                reset == expired \/ closing
                st1 == [start |-> IF first \/ reset THEN SetV(st.start, idx, IntV(t)) ELSE st.start,
@@ -364,8 +377,9 @@ GroupByStep(op, st, e) ==
                hit == {q \in 1..Len(m) : m[q][1] = mk}
            IN IF hit # {}
               THEN <<st, <<In(NextEv(CKey(m[CHOOSE q \in hit : TRUE][2], e.k), e.v))>>>>
-              ELSE <<[maps |-> (idx :> Append(m, <<mk, st.next>>)) @@ st.maps, next |-> st.next + 1],
-                     <<In(MEv("c", CKey(st.next, e.k), None)), In(NextEv(CKey(st.next, e.k), e.v))>>>>
+              ELSE LET ni == IF "group-index-per-parent" \in Deviations THEN Len(m) ELSE st.next IN
+                   <<[maps |-> (idx :> Append(m, <<mk, ni>>)) @@ st.maps, next |-> st.next + 1],
+                     <<In(MEv("c", CKey(ni, e.k), None)), In(NextEv(CKey(ni, e.k), e.v))>>>>
       [] e.t = "c" -> <<[st EXCEPT !.maps = (idx :> <<>>) @@ st.maps], <<Out(e)>>>>
       [] OTHER ->
            <<[st EXCEPT !.maps = Without(st.maps, idx)],
@@ -384,7 +398,7 @@ JoinStep(op, st, b, e) ==
         q(i) == IF i \in DOMAIN st.q THEN st.q[i] ELSE None
         h(i) == IF i \in DOMAIN st.h THEN st.h[i] ELSE FALSE
         stateful == op.join # "merge" IN
-    CASE e.t = "c" -> <<st, IF b = 1 THEN <<e>> ELSE <<>>>>
+    CASE e.t = "c" -> <<st, IF b = 1 \/ "tee-create-every-branch" \in Deviations THEN <<e>> ELSE <<>>>>
       [] e.t = "d" ->
            IF b = n
            THEN LET rs == IF "tee-reset-last-only" \in Deviations THEN {base + n}
